@@ -388,6 +388,34 @@ fn small_wrappers() {
     must_reach!("wrappers exercised");
 }
 
+/// destructure!: the raw-pointer reads of each arm (struct arm uses read_unaligned for packed structs)
+#[repr(C, packed)]
+struct Packed {
+    a: u8,
+    b: u32,
+    c: u16,
+    d: u64,
+}
+struct Plain {
+    x: u16,
+    y: [u8; 3],
+}
+fn destructure_reads() {
+    let (a, b, c, d): (u8, u32, u16, u64) = kani::any();
+    let p = Packed { a, b, c, d };
+    konst::destructure! {Packed {a: a2, b: b2, c: c2, d: d2} = p}
+    assert!(a2 == a && b2 == b && c2 == c && d2 == d);
+    let (x, y): (u16, [u8; 3]) = kani::any();
+    konst::destructure! {Plain {x: x2, y: y2} = Plain { x, y }}
+    assert!(x2 == x && y2[0] == y[0] && y2[2] == y[2]);
+    konst::destructure! {(t0, t1, t2) = (a, b, d)}
+    assert!(t0 == a && t1 == b && t2 == d);
+    let arr: [u32; 4] = kani::any();
+    konst::destructure! {[e0, rest @ .., e3] = arr}
+    assert!(e0 == arr[0] && e3 == arr[3] && rest[0] == arr[1] && rest[1] == arr[2]);
+    must_reach!("all four destructure! arms exercised");
+}
+
 macro_rules! per_type {
     ($($m:ident: $t:ty);* $(;)?) => { $(
         pub mod $m {
@@ -457,6 +485,8 @@ tiers! { bytes_patterns: unwind(7, 9), bytes_patterns::<4, 2>(), bytes_patterns:
 tiers! { cstr_fns: unwind(8, 10), cstr_fns::<5>(), cstr_fns::<7>(),
     calls("konst::ffi::cstr::{from_bytes_until_nul,from_bytes_with_nul,to_bytes_with_nul,to_bytes,to_str}"),
     bounds("every byte slice <=5 bytes", "<=7 bytes") }
+tiers! { destructure_reads: unwind(5, 5), destructure_reads(), destructure_reads(),
+    calls("konst::destructure! (packed struct, struct, tuple, array with rest)"), bounds("every field value", "same"), exhaustive }
 tiers! { small_wrappers: unwind(5, 5), small_wrappers(), small_wrappers(),
     calls("konst::maybe_uninit::{write,as_mut_ptr,uninit_array,array_assume_init}", "konst::manually_drop::{as_inner,as_inner_mut}", "konst::ptr::nonnull::{from_ref,from_mut}", "konst::option::copied"),
     bounds("every value", "same"), exhaustive }
